@@ -1,4 +1,5 @@
-import TongoProofs.Lemmas.MerkleDict
+import TongoProofs.Lemmas.MerkleCompose
+import TongoProofs.C01
 /-! Property C18 — generated Merkle proofs commit to the original tree and reveal the value.
 
 Model: `Tongo.Merkle.pruneCells` / `createProof` / `walk` / `proveKey` (TongoModel/Merkle.lean) mirror
@@ -68,6 +69,36 @@ theorem proof_verifies (H : List UInt8 → List UInt8) (hH : H32 H) (P : List Na
     exact h4.1
   obtain ⟨ci, e, _, _, _, hm⟩ := (good_cell H _ (wfExotic_wfSizes _ hwc)).1 hdc
   exact ⟨ci, e, by rw [(hm 0 (by omega)).1, e1], by rw [(hm 0 (by omega)).2, e2]⟩
+
+/-- **The proof is a bag of cells whose root is a Merkle-proof cell** (end to end, composition with C01/C07, agent
+boc's writer and reader). Let `createProof` return `proof`, and let `t` be the ORDER in which `SerializeBoc` writes
+the proof's cells: a valid layout whose row 0 unfolds to `proof`. (This is the remaining premise about the writer:
+the order computed by importCell/reorderCells is not modelled — `C01.order_valid`; it is checked on every generated
+proof by parsing the real bytes.) Then the bytes `serializeBoc` writes for `CreateProof`'s option set (no index, no
+CRC, no cache bits) parse back, with the repaired reader, to exactly that table with root 0; row 0 is a
+Merkle-proof cell (type 3, level mask 0, one ref) whose data is `03 ++ hash₀(t) ++ depth₀(t)`; the root unfolds to
+`proof`; and hashing the parse result (`Table.infos`, what an independent verifier runs) gives the root the hashes of
+the definition. -/
+theorem proof_boc (H : List UInt8 → List UInt8) (hH : H32 H) (P : List Nat → Bool) (root proof : Cell)
+    (hp : plain root = true) (h : createProof H P root = .ok proof)
+    (t : Table) (hlay : Boc.ValidLayout t [0]) (hunf : Table.unfold t (t.size + 1) 0 = some proof)
+    (hn : t.size < 16777216) (hsz : 1 ≤ t.size)
+    (hlen : (Boc.Writer.serializeOrdered t [0] false false false []).length < Boc.two63) :
+    Boc.parseBoc (Boc.Writer.serializeOrdered t [0] false false false []) = .ok (t, [0]) ∧
+    (∃ row child, t[0]? = some row ∧ row.ty = tyMerkleProof ∧ row.mask = 0 ∧ row.refs.length = 1 ∧
+      row.bits = Bits.bytesToBits ([3] ++ Spec.hashAt H root 0 ++ be16 (Spec.depthAt root 0)) ∧
+      proof = proofCell (Spec.hashAt H root 0) (Spec.depthAt root 0) child ∧
+      Spec.hashAt H child 0 = Spec.hashAt H root 0 ∧ Spec.depthAt child 0 = Spec.depthAt root 0) ∧
+    (∃ info, (Table.infos H t)[0]? = some (.ok info) ∧
+      ∀ l, l ≤ 4 → info.hashAt l = .ok (Spec.hashAt H proof l) ∧ info.depthAt l = .ok (Spec.depthAt proof l)) := by
+  obtain ⟨_, h2, h3, h4⟩ := createProof_ok H hH P root hp h
+  obtain ⟨child, hc, e1, e2, _⟩ := proof_verifies H hH P root proof hp h
+  refine ⟨C01.roundtrip t [0] false false false [] hlay hn (by simp) (by simpa using hsz) hlen, ?_, ?_⟩
+  · rw [hc] at hunf
+    obtain ⟨row, r1, r2, r3, r4, r5⟩ := unfold_root_row t _ 0 _ _ _ _ hunf
+    exact ⟨row, child, r1, r2, r3, by simpa using r5, r4, hc, e1, e2⟩
+  · obtain ⟨info, e, hm, _⟩ := C02core H proof h3 h4
+    exact ⟨info, by rw [infos_refines H t _ 0 proof hunf, e], hm⟩
 
 /-- **No panic, and exactly when a proof is produced.** On supported trees `CreateProof` never panics for any
 prune set; it fails only with the depth error (the tree, or the proof cell on top of it, is too deep). -/
